@@ -8,6 +8,7 @@ HOOK_COMMITS = [
     "d3baacf verif hooks: event sink for stream appends, scopes, canon snapshots and stream fold iterations, compiled only with --cfg aquavm_verif",
     "116de8b verif hooks: report the snapshot taken by canon of a stream map into a scalar (cfg aquavm_verif only)",
     "73efcd9 verif hooks: report fold iterations recorded in merged data that no iteration claimed at the end of a stream fold (cfg aquavm_verif only)",
+    "3273da9 verif hooks: split the unclaimed fold lore by cause (value replayed but not iterated / value without a position in the new trace), cfg aquavm_verif only",
 ]
 
 TRUST = ("Trusted base: the harness's host/service/scheduler model (src/sim.rs), the script generator, and the "
@@ -51,6 +52,11 @@ C = {
          "prev<cur<new and inside each source must be preserved and dense.", TRUST + " Uses the cfg(aquavm_verif) event sink.", "ordering monitor over hook events", "5/C12"),
  "C13": ("Event sink reports every stream append, canon snapshot and fold visit; checked: no double insertion, no lost append, "
          "snapshots equal appends so far, folds visit each value at most once and every generation head.", TRUST + " Uses the cfg(aquavm_verif) event sink.", "exactly-once monitor over hook events", "5/C13"),
+ "C15": ("Fault enumeration over honestly signed forks of one peer's data: at generated fork points (a par of 2-4 pending calls, with repeated "
+         "result ids) every subset is answered, and every ordered pair of versions is delivered to a victim; incomparable result multisets must be "
+         "rejected with the signature-check error and prev returned, comparable ones merged keeping the larger version's signature.",
+         TRUST + " Multisets are read with the harness decoder; the enumeration is complete per fork point, fork points are sampled.",
+         "fault enumeration (forked signer) with multiset oracle", "5/C15"),
  "C16": ("Reference-model monitor: an independent sequential evaluator of the C16 fragment (written from the language documentation over the "
          "harness's own syntax tree and the deterministic service model) gives the calls the sequential reading makes; every call request of every "
          "run of generated multi-peer histories must be one of them (same peer, service, function, argument values), with multiplicity.",
@@ -90,7 +96,6 @@ C = {
 
 NOT_BUILT = {
  "C14": "not claimed: the forged-result fault enumeration (DESIGN 5/C14) was not built in the time available (the tamper module is used by C01 only for crash detection)",
- "C15": "not claimed: the incompatible-versions fault enumeration (DESIGN 5/C15) was not built in the time available",
 }
 
 checks = []
@@ -103,7 +108,7 @@ for pid in sorted(C):
         "evidence_file": f"/verif/evidence/{pid}.json",
         "replay_cmd_template": f"./check {pid} --replay {{path}}",
         "engine": "vharness",
-        "level_claimed": {"category": "exploration", "text": text, "design_ref": "DESIGN.md section " + ref},
+        "level_claimed": {"category": "fault_enumeration" if pid in ("C14", "C15") else "exploration", "text": text, "design_ref": "DESIGN.md section " + ref},
         "level_note": note,
         "technique": tech,
     })
